@@ -466,7 +466,8 @@ class Contract:
         node = ast.parse(text.strip(), mode='eval').body
         e = st.new_env(None, dict(env))
         res = []
-        for s, v in ex.ev(node, e, st, {'mod': SPEC_CTX}):
+        for s, v in ex.merged(st, lambda: [(s1, (v1 if isinstance(v1, E.Raise) else E.VBool(ex.truth(v1, s1))))
+                                           for s1, v1 in ex.ev(node, e, st, {'mod': SPEC_CTX})]):
             if isinstance(v, E.Raise):
                 raise E.ToolLimit('contract expression raised %s: %s' % (v.exc, text))
             res.append((s, ex.truth(v, s)))
